@@ -1,22 +1,53 @@
 #!/usr/bin/env python3
 """Re-runs every stored seeded change against the check of the property it breaks (quick tier) and reports the ones
-that are NOT caught. Applies each patch to /repo and always reverts (see try_seed.py)."""
-import json, os, subprocess, sys
+that are NOT caught.  Works on a scratch clone of /repo (VERIF_REPO) with VERIF_NO_EVIDENCE=1, so neither /repo nor
+the committed evidence is touched and other checks can run meanwhile; the clone is removed at the end.
+usage: seed_regress.py [-j N] [name-substring ...]"""
+import json, os, subprocess, sys, shutil, tempfile
+from concurrent.futures import ThreadPoolExecutor
 root = '/verif/seeded'
-missed = []
+args = sys.argv[1:]
+J = 2
+if '-j' in args:
+    i = args.index('-j'); J = int(args[i + 1]); del args[i:i + 2]
+todo = []
 for d in sorted(os.listdir(root)):
     m = os.path.join(root, d, 'meta.json')
-    if not os.path.exists(m):
+    if not os.path.exists(m) or (args and not any(a in d for a in args)):
         continue
     prop = json.load(open(m))['breaks_property']
     patches = [p for p in sorted(os.listdir(os.path.join(root, d))) if p.startswith('patch') and p.endswith('.diff')]
     if len(patches) > 1:
         patches = [p for p in patches if p != 'patch.diff']
-    for p in patches:
-        r = subprocess.run([sys.executable, '/verif/tools/try_seed.py', os.path.join(root, d, p), prop], capture_output=True, text=True)
-        ok = r.returncode == 0
-        print('%-48s %-12s %s' % (d, p, 'caught' if ok else 'MISSED  ' + r.stdout.strip().split('\n')[-1][:160]), flush=True)
-        if not ok:
-            missed.append((d, p))
-print('seeds: missed %d' % len(missed))
+    todo += [(d, p, prop) for p in patches]
+base = tempfile.mkdtemp(prefix='seedreg.', dir='/var/tmp')
+
+
+def one(a):
+    i, (d, p, prop) = a
+    clone = os.path.join(base, 'r%d' % i)
+    subprocess.run(['git', 'clone', '-q', '/repo', clone], check=True)
+    try:
+        ap = subprocess.run(['git', '-C', clone, 'apply', os.path.join(root, d, p)], capture_output=True, text=True)
+        if ap.returncode != 0:
+            return d, p, False, 'patch does not apply: ' + ap.stderr.strip()[:120]
+        r = subprocess.run(['./check', prop, '--tier', 'quick'], cwd='/verif', capture_output=True, text=True,
+                           env=dict(os.environ, VERIF_REPO=clone, VERIF_NO_EVIDENCE='1'))
+        v = [l for l in r.stdout.split('\n') if l.startswith('VIOLATION')]
+        ok = r.returncode == 1 and bool(v)
+        return d, p, ok, '' if ok else 'exit=%d %s' % (r.returncode, (r.stdout + r.stderr).strip().split('\n')[-1][:160])
+    finally:
+        shutil.rmtree(clone, ignore_errors=True)
+
+
+missed = []
+try:
+    with ThreadPoolExecutor(J) as pool:
+        for d, p, ok, why in pool.map(one, enumerate(todo)):
+            print('%-52s %-12s %s' % (d, p, 'caught' if ok else 'MISSED  ' + why), flush=True)
+            if not ok:
+                missed.append((d, p))
+finally:
+    shutil.rmtree(base, ignore_errors=True)
+print('seeds: %d, missed %d' % (len(todo), len(missed)))
 sys.exit(1 if missed else 0)
